@@ -156,6 +156,8 @@ def active_case(draw):
                            min_size=c["d"], max_size=c["d"]))
     c["ranges"] = [list(r) for r in ranges]
     c["m"] = draw(st.integers(1, 6))
+    # the query array keeps the caller's dtype: narrow integer types with ranges wider than their positive maximum included
+    c["qtype"] = draw(st.sampled_from(["float64", "float64", "float32", "int64", "int8", "int16", "int32"]))
     return c
 
 
@@ -175,6 +177,17 @@ def oracle_active(case):
         else:
             vals[0], vals[-1] = lo, hi
         Q[:, f] = vals
+    qtype = case.get("qtype", "float64")
+    if qtype != "float64":
+        f = {"float32": 1.0, "int64": 2.0, "int8": 36.0, "int16": 9000.0, "int32": 6.0e8}[qtype] / (case["cut_scale"] if qtype != "float32" else 1.0)
+        for _, arr in est.cut_points_list_:
+            arr[:] = arr * f
+        Q = Q * f
+        if qtype != "float32":
+            info_ = np.iinfo(qtype)
+            Q = np.clip(np.round(Q), info_.min, info_.max)
+        Q = Q.astype(qtype)
+    Qf = np.asarray(Q, dtype=np.float64)
     # the question is put to the fitted model: hyper-parameters changed after fit (no refit), or the caller's mask array
     # rewritten in place, play no part; and asking changes nothing
     cuts_before = [(fi, np.array(arr, copy=True)) for fi, arr in est.cut_points_list_]
@@ -201,7 +214,7 @@ def oracle_active(case):
     want = []
     between = False
     for fi, arr in cuts_before:
-        mn, mx = Q[:, fi].min(), Q[:, fi].max()
+        mn, mx = Qf[:, fi].min(), Qf[:, fi].max()
         if np.any((arr > mn) & (arr < mx)):
             want.append(fi)
         elif len(arr) >= 2 and arr.min() < mn and mx < arr.max():
@@ -210,10 +223,10 @@ def oracle_active(case):
             between = True
     if sorted(int(g) for g in got) != want:
         raise Violation(f"{label}: find_active_points returned {list(got)} for data ranges "
-                        f"{[(Q[:, f].min(), Q[:, f].max()) for f in range(d)]} and cut points "
+                        f"{[(Qf[:, f].min(), Qf[:, f].max()) for f in range(d)]} ({qtype} array) and cut points "
                         f"{[(fi, a.tolist()) for fi, a in cuts_before]}; features with a cut strictly inside their "
                         f"range: {want}" + ("" if tamper in (0,) else f" [after fit: {['', 'set_params(feature_mask=other)', 'mask array rewritten in place', 'set_params(n_clusters, temperature)'][tamper]}]"))
-    return {"nontrivial": bool(between), "classes": [f"cuts={case['n_cuts']}", f"active={len(want)}", f"tamper={tamper}"]}
+    return {"nontrivial": bool(between), "classes": [f"cuts={case['n_cuts']}", f"active={len(want)}", f"tamper={tamper}", "q:" + qtype]}
 
 
 def subs():
